@@ -107,6 +107,14 @@ def run(prop, tier, replay=None):
     try:
         harness = C.build_harness(scratch)
         cases_path = scratch.path("cases.jsonl")
+        if replay and json.load(open(replay)).get("replay_driver") == "registry":
+            from . import registry_chk as RG
+            rp = json.load(open(replay))
+            rv, _ = RG.method_dispatch_violations(prop, scratch, harness, seed, rp["cases"])
+            for key, v in sorted(rv.items(), key=str):
+                print("VIOLATION property=%s replay=%s  (%s; +%d similar)" % (prop, C.write_replay(prop, "DispatchMethod-%s-%s" % (key[1], key[2]), v), v["what"], v["more"]))
+            print("%s replay: registration histories=1, violations=%d" % (prop, len(rv)))
+            return 1 if rv else 0
         if replay:
             rp = json.load(open(replay))
             seed = rp.get("seed", seed)
@@ -127,7 +135,7 @@ def run(prop, tier, replay=None):
         if p.returncode != 0:
             raise C.Infra("router driver failed:\n" + p.stdout[-3000:])
         shards = C.split_trace(trace, 16, scratch.path("shards"), lambda l: l.startswith('{"ev":"Reset"'))
-        reps = C.validate_shards(scratch, "RouterTrace.tla", "RouterTrace.cfg", shards)
+        reps = C.validate_shards(scratch, "RouterTrace.tla", "RouterTrace.cfg", shards, timeout=(1500 if tier == "quick" else 9000))
         stat = collections.Counter()
         failed = []
         for r in reps:
@@ -174,6 +182,15 @@ def run(prop, tier, replay=None):
                              observed=ev["outs"],
                              registration=dict(mode=rs["mode"], src=rs["src"], orders=rs["orders"]),
                              signature=sig, more=0, replay_driver="router")
+        reg_requests = 0
+        reg_viol = {}
+        if prop == "C01" and not replay:
+            # the same clause after RegisterConn / DropConn / re-registration: the handler that answers is the one of the
+            # method owning the matching rule
+            from . import registry_chk as RG
+            reg_viol, reg_requests = RG.method_dispatch_violations(prop, scratch, harness, seed)
+            for key, v in sorted(reg_viol.items(), key=str):
+                print("VIOLATION property=%s replay=%s  (%s; +%d similar)" % (prop, C.write_replay(prop, "DispatchMethod-%s-%s" % (key[1], key[2]), v), v["what"], v["more"]))
         nviol = 0
         for fid, n in sorted(known.items()):
             f = next(x for x in findings if x["id"] == fid)
@@ -184,7 +201,7 @@ def run(prop, tier, replay=None):
                 prop, rp, formula, v["request"], v["rules"][:v["registration"] and 3],
                 [(o["k"], o["m"], o["status"]) for o in v["observed"]]))
             nviol += 1
-        nviol = len(viol)
+        nviol = len(viol) + len(reg_viol)
         samples = []
         for cid in list(sides)[:3]:
             samples.append(dict(rules=sides[cid].get("rules"), requests=(sides[cid].get("reqs") or [])[:6]))
@@ -198,7 +215,7 @@ def run(prop, tier, replay=None):
                   "single-edit near miss of one instantiation, for each request kind; each registered in all orders on real "
                   "muxes. Non-trivial for C01 = lookups that were dispatched (soundness antecedent holds); for C02 = lookups "
                   "for which some rule matches strictly with convertible captures (completeness antecedent holds).") % n_exh,
-            samples=samples, exhaustive=False,
+            samples=samples, exhaustive=False, requests_after_registration_histories=reg_requests,
             neg_guards_violated=design.get("neg_guards"), design_cfg=design.get("mc_cfg"),
             rule_sets=stat["cases"], rule_sets_rejected_by_registration=stat["rejectedSets"],
             order_dependent_acceptance=stat["skippedOrderDep"], literal_precedence_cases=stat["litcases"],
